@@ -38,7 +38,8 @@ Agrees ==
                             /\ coll.execfn # 0 /\ CStr(heap, coll.execfn) = r.aux.execfn
       [] fn = "var_unix" -> AsRes(out) = r.look[j].varu
       [] fn = "var" -> IF out = Missing THEN r.look[j].var = [k |-> "missing"]
-                       ELSE r.look[j].var \in {[k |-> "ok", v |-> out[2]], [k |-> "notunicode"]}
+                       ELSE IF out = NotUnicode THEN r.look[j].var.k \in {"notunicode", "ok"}    \* (non-ASCII but valid UTF-8 is "ok" in reality)
+                       ELSE r.look[j].var = [k |-> "ok", v |-> out[2]]
 NextT ==
     /\ verdict = "running"
     /\ IF pc # "done"
